@@ -23,7 +23,7 @@ type genOpts struct {
 
 var genKeys = []string{"a", "b", "c", "id", "name", "k0", "k1", "k2", "x", "y", "z", "list", "obj", "é", "q\"uote", "s p", "tab\t", ""}
 var genStrs = []string{"", "a", "hello", "wörld", "x\"y", "back\\slash", "line\nbreak", "<tag>&", "日本語", " ", "0123456789abcdef0123456789abcdef", "tab\there", "null", "true", "😀"}
-var genNums = []string{"0", "1", "-1", "12", "123456789", "-0", "1.5", "-2.25", "1e3", "1E-2", "3.14159", "9007199254740993", "18446744073709551615", "-9223372036854775808", "0.1", "1e400", "2.5e-8", "100", "65535", "7"}
+var genNums = []string{"0", "1", "-1", "12", "123456789", "-0", "1.5", "-2.25", "1e3", "1E-2", "3.14159", "9007199254740993", "18446744073709551615", "-9223372036854775808", "0.1", "2.5e-8", "100", "65535", "7"}
 
 func quoteJSON(s string) string {
 	var sb strings.Builder
